@@ -83,6 +83,7 @@ def run(chk, prog):
 
     # ---- (a1) the look-ahead copy carries the parked flows
     save_names_the_current_flow(chk, prog)
+    switch_changes_the_flow_only(chk, prog, tr)
     RE = 'C10.look-ahead-copy-keeps-the-parked-flows'
     chk.rule(RE, 'The state the engine runs a look-ahead on replaces the live state when the look-ahead is committed: '
              'copy_and_start_patching fills the copy\'s named_flows from the original\'s on every path on which the '
@@ -360,3 +361,66 @@ def save_names_the_current_flow(chk, prog):
                 chk.decide(RF, chk.key(RF, nm, k, 'present'), k in seen, 'the key is written',
                            'StoryState::write_json no longer writes "%s"' % k, f.loc(0))
     chk.floor(RF, 'constant keys written by the state and flow writers', n, 16)
+
+
+# what a flow operation may change, and why (seed C10-6)
+SWITCH_MAY_WRITE = {
+    'StoryState::current_flow': 'the flow that becomes current',
+    'StoryState::named_flows': 'the flow switched away from is parked here',
+    'StoryState::alive_flow_names_dirty': 'cache flag of the alive-flow-names list',
+    'StoryState::output_stream_text_dirty': 'cache flag: the text cache must not answer for the other flow',
+    'StoryState::output_stream_tags_dirty': 'cache flag: the tag cache must not answer for the other flow',
+    'StoryState::variables_state': 'only to re-point its call stack (next line)',
+    'VariablesState::callstack': 'temporary variables are looked up in the call stack of the current flow',
+    'CallStack::threads': 'the fresh call stack of a newly created flow',
+    'Thread::callstack': 'the fresh call stack of a newly created flow',
+    'Story::state': 'the receiver through which the state is reached',
+}
+
+
+def switch_changes_the_flow_only(chk, prog, tr):
+    R = 'C10.switch-changes-the-flow-only'
+    chk.rule(R, 'Switching to a flow, switching back to the default flow and removing a flow change which flow is current '
+             'and where the others are parked - nothing else: the write effects (assignments, std mutators, interior '
+             'mutation, through every callee) of the three state functions and of their public entry points stay inside a '
+             'tabled set of fields. Anything else they wrote - the evaluation stack (arguments of a pending '
+             'choose_path_string wait there for the next continue), the diverted pointer, globals, counts, the turn '
+             'index, seeds, messages - would be one flow reaching into what another flow, or a save, depends on.')
+    from analysis.effects import Effects
+    ef = Effects(prog, tracer=tr)
+    want = ('StoryState::switch_flow_internal', 'StoryState::switch_to_default_flow_internal',
+            'StoryState::remove_flow_internal', 'Story::switch_flow', 'Story::switch_to_default_flow', 'Story::remove_flow')
+    found = [fn for fn in prog.fns.values() if fn.short in want and fn.kind != 'closure']
+    chk.floor(R, 'flow operations examined', len(found), 6)
+    culprits = {}
+    for fn in sorted(found, key=lambda f: f.p):
+        mw = ef.may_write(fn)
+        extra = sorted(mw - set(SWITCH_MAY_WRITE))
+        if fn.short.endswith('_internal') and fn.short != 'StoryState::switch_to_default_flow_internal':
+            chk.floor(R, 'fields written by ' + fn.short, len(mw), 4)
+        # name the construct: the first direct event (here or in a callee) that writes the extra field
+        loc, via = None, ''
+        if extra:
+            seen, work = set(), [fn]
+            while work and loc is None:
+                g = work.pop(0)
+                if g.p in seen:
+                    continue
+                seen.add(g.p)
+                for e in ef.events(g):
+                    if e['kind'] == 'repo-call':
+                        if set(extra) & ef.event_fields(g, e):
+                            work.append(prog.fns[e['callee']])
+                    elif set(extra) & set(e['fields']):
+                        loc, via = g.loc(e['bb']), '%s in %s' % (e['what'], g.short)
+                        break
+        if not extra:
+            chk.ok(R, chk.key(R, fn.short), 'writes only %s' % ', '.join(sorted(mw)))
+        else:
+            culprits.setdefault((via or fn.short, tuple(extra)), [loc or fn.loc(0), []])[1].append(fn.short)
+    for (via, extra), (loc, entries) in sorted(culprits.items()):
+        holder = via.rsplit(' in ', 1)[-1]
+        chk.fail(R, chk.key(R, holder, '+'.join(x.split('::')[-1] for x in extra)),
+                 '%s changes %s (%s; reached from %s): a flow operation must leave everything but the choice of the '
+                 'current flow alone - state kept outside the flows is shared by all of them and by every save'
+                 % (holder, ', '.join(extra), via, ', '.join(sorted(entries))), loc)
